@@ -196,6 +196,21 @@ CHECKS['C11'] = {
                  'traversal oracle',
 }
 
+CHECKS['C12'] = {
+    'text': 'Bounded symbolic model checking of inventory aggregation and the running balance on ledgers of 3 postings from 5 '
+            'amount / lot patterns (lot reductions, two lots of one commodity, several currencies, with and without cost): for '
+            'every selection (symbolic WHERE bits), account assignment and transaction split, sum(position) equals the Beancount '
+            'inventory sum, per-account sums add up to the whole, units / cost / value / convert commute with sum, every balance '
+            'cell is the prefix sum of the selected positions however often balance is referenced (also with a subquery scan '
+            'consulting balance in between), the last balance equals sum(position), balance in WHERE sums all scanned postings, '
+            'and earlier queries do not influence it.',
+    'design_ref': 'DESIGN.md section 5, C12',
+    'note': _COMMON_NOTE + ' Amounts are palette values (R4: Decimal arithmetic is never symbolic); the claim is over '
+            'selections, groupings, splits and reference counts, not over all amounts.',
+    'technique': 'symbolic execution (CrossHair/z3) of the sum aggregators, the inventory functions and the balance column '
+                 'against beancount inventory arithmetic',
+}
+
 NOT_APPLICABLE = {
     pid: 'check under construction in this session; not claimed yet'
     for pid in ['C06', 'C11', 'C12', 'C13', 'C14', 'C16', 'C17', 'C18', 'C19', 'C20']
